@@ -127,6 +127,9 @@ def concretise(c, r):
         elif c["fault"] == "out_is_dir":
             path = "odir"
             dirs.append("odir")
+        elif r.randrange(2) == 1:
+            # the -o file may exist already: it must be replaced on success and left alone on failure
+            files[OFILE] = b"previous content\n"
         groups.append(r.choice([["-o", path], ["--output-file", path], ["--output-file=" + path]]))
     if c["ntn"]:
         groups.append(["--no-trailing-newline"])
